@@ -157,12 +157,6 @@ theorem foldl_addField_rest (fs acc : List Field) :
 
 /-! ### enum numbering -/
 
-/-- value of an enum member written without `= n`, as parseEnum computes it -/
-def implicitEnumValue (values : List EnumValue) : Int :=
-  match values.getLast? with
-  | none => 0
-  | some l => wrap64 (l.value + 1)
-
 /-- the rule of the property for enums: written values as written, otherwise previous + 1 (int64), first 0 -/
 def enumSpec : Option Int → List (Option Int) → List Int
   | _, [] => []
@@ -203,6 +197,13 @@ def Plain (q : Nat) : List Nat → Prop
   | [] => True
   | [c] => c ≠ 92
   | c :: d :: r => (c = 92 → d ≠ q ∧ d ≠ 92) ∧ Plain q (d :: r)
+
+instance decPlain (q : Nat) : (s : List Nat) → Decidable (Plain q s)
+  | [] => isTrue trivial
+  | [c] => inferInstanceAs (Decidable (c ≠ 92))
+  | c :: d :: r =>
+    have := decPlain q (d :: r)
+    inferInstanceAs (Decidable ((c = 92 → d ≠ q ∧ d ≠ 92) ∧ Plain q (d :: r)))
 
 theorem esc_ne_nil (q c : Nat) (r : List Nat) : esc q (c :: r) ≠ [] := by
   simp only [esc]; split <;> simp
@@ -273,6 +274,8 @@ def decVal : List Nat → Nat := List.foldl (fun n d => n * 10 + d) 0
 
 def digitsOK (ds : List Nat) : Prop := ∀ d ∈ ds, d < 10
 
+instance (ds : List Nat) : Decidable (digitsOK ds) := by unfold digitsOK; infer_instance
+
 theorem digitVal_dec (d : Nat) (h : d < 10) : digitVal (d + 48) = some d := by
   unfold digitVal
   have : 48 ≤ d + 48 ∧ d + 48 ≤ 57 := by omega
@@ -299,5 +302,90 @@ theorem uintLoop_dec (maxVal : Nat) : ∀ (ds : List Nat) (n : Nat), digitsOK ds
     have h3 : ¬ n * 10 + d > maxVal := by omega
     simp only [h2, h3, if_false]
     exact ih (n * 10 + d) hr hmax
+
+theorem parseInt_decimal (ds : List Nat) (hne : ds ≠ []) (hd : digitsOK ds) (h : decVal ds < 2 ^ 31) :
+    parseInt (ds.map (· + 48)) 10 32 = ((decVal ds : Int), false) := by
+  cases ds with
+  | nil => exact absurd rfl hne
+  | cons d r =>
+    have hd10 : d < 10 := hd d (by simp)
+    have hu := uintLoop_dec (2 ^ 32 - 1) (d :: r) 0 hd (by unfold decVal at h; omega)
+    simp only [List.map_cons] at hu
+    have h43 : ¬ (d + 48 = 43 ∨ d + 48 = 45) := by omega
+    have h45 : ¬ (d + 48 = 45) := by omega
+    unfold decVal at h ⊢
+    generalize List.foldl (fun n d => n * 10 + d) 0 (d :: r) = V at hu h ⊢
+    simp only [parseInt, List.map_cons, h43, if_false, parseUint]
+    simp only [reduceCtorEq, if_false, show ¬ (10 : Nat) = 0 by decide, ne_eq, not_false_eq_true, if_true]
+    rw [hu]
+    have hc : ¬ (V ≥ 2 ^ (32 - 1)) := by simp; omega
+    simp [h45, hc]
+
+theorem parseInt_decimal_signed (neg : Bool) (ds : List Nat) (hne : ds ≠ []) (hd : digitsOK ds)
+    (h : if neg then decVal ds ≤ 2 ^ 31 else decVal ds < 2 ^ 31) :
+    parseInt ((if neg then 45 else 43) :: ds.map (· + 48)) 10 32 =
+      ((if neg then -(decVal ds : Int) else (decVal ds : Int)), false) := by
+  cases ds with
+  | nil => exact absurd rfl hne
+  | cons d r =>
+    have hle : decVal (d :: r) ≤ 2 ^ 32 - 1 := by cases neg <;> simp at h <;> omega
+    have hu := uintLoop_dec (2 ^ 32 - 1) (d :: r) 0 hd (by unfold decVal at hle; exact hle)
+    simp only [List.map_cons] at hu
+    unfold decVal at h ⊢
+    generalize List.foldl (fun n d => n * 10 + d) 0 (d :: r) = V at hu h ⊢
+    cases neg with
+    | false =>
+      simp only [Bool.false_eq_true, if_false] at h ⊢
+      simp only [parseInt, true_or, if_true, parseUint]
+      simp only [reduceCtorEq, if_false, show ¬ (10 : Nat) = 0 by decide, ne_eq, not_false_eq_true, if_true, List.map_cons]
+      rw [hu]
+      have hc : ¬ (V ≥ 2 ^ (32 - 1)) := by simp; omega
+      simp [hc]
+    | true =>
+      simp only [if_true] at h ⊢
+      simp only [parseInt, or_true, if_true, parseUint]
+      simp only [reduceCtorEq, if_false, show ¬ (10 : Nat) = 0 by decide, ne_eq, not_false_eq_true, if_true, List.map_cons]
+      rw [hu]
+      have hc : ¬ (V > 2 ^ (32 - 1)) := by simp; omega
+      simp [hc]
+
+/-! ### the field loops number with `addField` -/
+
+variable (ids : Ids) (buf : Array Nat)
+
+/-- the Field nodes of a sibling chain, parsed in order, before numbering -/
+def collectFields (fuel : Nat) : T → W (List Field)
+  | .nil => .ok []
+  | .node r b e up next =>
+    if r = ids.rField then
+      match parseField ids buf fuel (.node r b e up next) with
+      | .ok f =>
+        match collectFields fuel next with
+        | .ok fs => .ok (f :: fs)
+        | .err => .err | .panic => .panic | .crash => .crash
+      | .err => .err | .panic => .panic | .crash => .crash
+    else collectFields fuel next
+
+theorem fieldsLoop_eq (fuel : Nat) (post : Field → Field) : ∀ (t : T) (acc : List Field),
+    fieldsLoop ids buf fuel post acc t =
+      match collectFields ids buf fuel t with
+      | .ok fs => .ok ((fs.map post).foldl addField acc)
+      | .err => .err | .panic => .panic | .crash => .crash := by
+  intro t
+  induction t with
+  | nil => intro acc; simp [fieldsLoop, collectFields]
+  | node r b e up next _ ihn =>
+    intro acc
+    simp only [fieldsLoop, collectFields]
+    split
+    · cases hp : parseField ids buf fuel (.node r b e up next) with
+      | ok f =>
+        simp only []
+        rw [ihn]
+        cases collectFields ids buf fuel next <;> simp
+      | err => simp
+      | panic => simp
+      | crash => simp
+    · exact ihn acc
 
 end Walker
